@@ -683,6 +683,44 @@ def tick_facts(run, cls):
 
 
 # ------------------------------------------------------------ enter facts
+def own_selector_forms(f):
+    """How enter/recur/exit decide between the deque they are given and the scheduler's own .deeds: the set of test forms that
+    guard `<x> = self.deeds` ('is-none' = identity with None on the parameter; anything else, e.g. truthiness, also selects the own
+    deque when the caller passes an EMPTY deque, as remove() and extend() do when nothing matches)."""
+    forms = set()
+    a = f.node.args
+    params = {x.arg for x in a.posonlyargs + a.args + a.kwonlyargs}
+    ps = f.params()[0]
+    first = ps[1] if len(ps) > 1 else "doers"       # enter(doers=None): the own deque goes with the own doers
+
+    def classify(t, pname):
+        if isinstance(t, ast.Compare) and len(t.ops) == 1 and dotted(t.left) == pname and isinstance(t.ops[0], (ast.Is, ast.IsNot)) \
+                and getattr(t.comparators[0], "value", 0) is None:
+            return "is-none"
+        return "other:" + unparse(t)
+    for n in walk_local(f.node):
+        if isinstance(n, ast.If):
+            for s in n.body + n.orelse:
+                if isinstance(s, ast.Assign) and dotted(s.value) == "self.deeds":
+                    tg = dotted(s.targets[0])
+                    forms.add(classify(n.test, tg if tg in params else first))
+        elif isinstance(n, ast.Assign) and dotted(n.targets[0]) in params:
+            v, pname = n.value, dotted(n.targets[0])
+            if isinstance(v, ast.IfExp) and "self.deeds" in (dotted(v.body), dotted(v.orelse)):
+                forms.add(classify(v.test, pname))
+            elif isinstance(v, ast.BoolOp) and any(dotted(x) == "self.deeds" for x in v.values):
+                forms.add("other:" + unparse(v))
+    return forms
+
+
+def own_selector_facts(run, cls, meths=("recur", "exit")):
+    out = {}
+    for meth in meths:
+        f = run.ix.method(cls, meth)
+        out["%s.own-deeds-selected-by" % meth] = (tuple(sorted(own_selector_forms(f))), run.site(f))
+    return out
+
+
 class EnterDeps(DepDomain):
     def __init__(self):
         super().__init__()
@@ -741,16 +779,7 @@ def enter_facts(run, cls):
                 adv.add("advance")
     facts["enter.advances-dog"] = (tuple(sorted(adv)), run.site(f))
     # which test selects the scheduler's own doers/deeds: must be identity with None (extend passes a possibly empty list)
-    forms = set()
-    pname = f.params()[0][1] if len(f.params()[0]) > 1 else "doers"
-    for n in walk_local(f.node):
-        if isinstance(n, ast.If) and any(isinstance(s, ast.Assign) and dotted(s.value) == "self.deeds" for s in n.body + n.orelse):
-            t = n.test
-            if isinstance(t, ast.Compare) and dotted(t.left) == pname and isinstance(t.ops[0], (ast.Is, ast.IsNot)) \
-                    and getattr(t.comparators[0], "value", 0) is None:
-                forms.add("is-none")
-            else:
-                forms.add("other:" + unparse(t))
+    forms = own_selector_forms(f)
     facts["enter.own-deeds-selected-by"] = (tuple(sorted(forms)), run.site(f))
     return facts
 
@@ -1319,6 +1348,7 @@ def scheduler_fact_bundle(run, cls):
     out.update(extend_facts(run, cls))
     out.update(extend_atomic_facts(run, cls))
     out.update(remove_facts(run, cls))
+    out.update(own_selector_facts(run, cls))
     for meth, what in (("recur", "recur"), ("remove", "remove")):
         f = ix.method(cls, meth)
         fs_ = conservation_facts(run, f, what)
